@@ -7,6 +7,7 @@ import (
 	"os"
 	"path/filepath"
 	"sync"
+	"sync/atomic"
 	"syscall"
 	"time"
 
@@ -79,15 +80,24 @@ func sensorMonRun(ctx *Ctx, in sensorIn) (sensorObs, string) {
 	seeding := true
 	planDone := make(chan struct{})
 	var once sync.Once
+	var lastProgress atomic.Int64 // unix nanoseconds of the last sign of life of the monitor goroutine
+	lastProgress.Store(time.Now().UnixNano())
 	util.VerifReadHook = func(p string) ([]byte, error, bool) {
 		if p != path {
 			return nil, nil, false
 		}
 		mu.Lock()
-		defer mu.Unlock()
-		if seeding {
+		seed, sn := seeding, sensor
+		mu.Unlock()
+		if seed {
 			return sensorMonServe(in.InitStep, path)
 		}
+		lastProgress.Store(time.Now().UnixNano())
+		// not under mu: if the code under test blocks here (broken lock discipline) only the monitor
+		// goroutine is stuck and the stall watchdog below ends the case
+		avg := sn.GetMovingAvg()
+		mu.Lock()
+		defer mu.Unlock()
 		var st sensorStep
 		if len(served) < len(in.Steps) {
 			st = in.Steps[len(served)]
@@ -95,7 +105,8 @@ func sensorMonRun(ctx *Ctx, in sensorIn) (sensorObs, string) {
 			st = sensorStep{Fault: "missing", Cls: "err"}
 			once.Do(func() { close(planDone) })
 		}
-		served = append(served, sensorMonServed{step: st, avg: sensor.GetMovingAvg()})
+		served = append(served, sensorMonServed{step: st, avg: avg})
+		lastProgress.Store(time.Now().UnixNano())
 		return sensorMonServe(st, path)
 	}
 	defer func() { util.VerifReadHook = nil }()
@@ -103,21 +114,32 @@ func sensorMonRun(ctx *Ctx, in sensorIn) (sensorObs, string) {
 	var obs sensorObs
 	obs.Avgs = []string{}
 	obs.Errs = []bool{}
-	obs.Panic = catch(func() {
+	wd := sensorWatchdog(in.Kind)
+	hung := false
+	harness := catch(func() {
 		prometheus.DefaultRegisterer = prometheus.NewRegistry()
 		configuration.CurrentConfig.Sensors = []configuration.SensorConfig{cfg}
-		if err := internal.VerifInitializeSensors(controllers); err != nil {
-			panic(err)
-		}
-		s, ok := sensors.GetSensor(id)
-		if !ok {
-			panic("sensor not registered")
+		var s sensors.Sensor
+		var avg float64
+		if r := sensorGuard(wd, func() {
+			if err := internal.VerifInitializeSensors(controllers); err != nil {
+				panic(err)
+			}
+			var ok bool
+			s, ok = sensors.GetSensor(id)
+			if !ok {
+				panic("sensor not registered")
+			}
+			avg = s.GetMovingAvg()
+		}); r != "" {
+			obs.Panic, hung = "initializeSensors: "+r, true
+			return
 		}
 		mu.Lock()
 		sensor = s
 		seeding = false
 		mu.Unlock()
-		obs.Init = sensorFmtF(s.GetMovingAvg())
+		obs.Init = sensorFmtF(avg)
 
 		poll := time.Duration(in.PollUs) * time.Microsecond
 		if poll <= 0 {
@@ -125,15 +147,34 @@ func sensorMonRun(ctx *Ctx, in sensorIn) (sensorObs, string) {
 		}
 		mon := internal.NewSensorMonitor(s, poll)
 		rctx, cancel := context.WithCancel(context.Background())
+		defer cancel()
 		finished := make(chan string, 1)
+		lastProgress.Store(time.Now().UnixNano())
 		go func() {
 			finished <- catch(func() { _ = mon.Run(rctx) })
 		}()
-		// generous: the plan needs len(steps) ticks; under load ticks are late or dropped
-		budget := 5*time.Second + time.Duration(len(in.Steps))*poll*20
-		select {
-		case <-planDone:
-		case <-time.After(budget):
+		// generous: the plan needs len(steps) ticks; under load ticks are late or dropped.
+		// Stall watchdog: no sign of life from the monitor goroutine for 3 s = the poll hung.
+		deadline := time.Now().Add(5*time.Second + time.Duration(len(in.Steps))*poll*20)
+		tick := time.NewTicker(10 * time.Millisecond)
+		defer tick.Stop()
+	wait:
+		for {
+			select {
+			case <-planDone:
+				break wait
+			case p := <-finished:
+				panic("monitor goroutine ended early: " + p)
+			case <-tick.C:
+				if time.Since(time.Unix(0, lastProgress.Load())) > 3*time.Second {
+					sensorHungInStream++
+					obs.Panic, hung = "monitor loop: hung (no poll for 3 s)", true
+					return
+				}
+				if time.Now().After(deadline) {
+					break wait
+				}
+			}
 		}
 		cancel()
 		select {
@@ -141,10 +182,14 @@ func sensorMonRun(ctx *Ctx, in sensorIn) (sensorObs, string) {
 			if p != "" {
 				panic("monitor goroutine: " + p)
 			}
-		case <-time.After(10 * time.Second):
-			panic("harness: sensor monitor did not stop after cancellation")
+		case <-time.After(3 * time.Second):
+			sensorHungInStream++
+			obs.Panic, hung = "monitor loop: hung (Run did not return after cancellation)", true
 		}
 	})
+	if harness != "" {
+		obs.Panic = harness
+	}
 	mu.Lock()
 	log := append([]sensorMonServed{}, served...)
 	mu.Unlock()
@@ -156,8 +201,11 @@ func sensorMonRun(ctx *Ctx, in sensorIn) (sensorObs, string) {
 		var a float64
 		if k+1 < len(log) {
 			a = log[k+1].avg
-		} else if sensor != nil {
-			a = sensor.GetMovingAvg()
+		} else if sensor != nil && !hung {
+			if r := sensorGuard(wd, func() { a = sensor.GetMovingAvg() }); r != "" {
+				obs.Panic, hung = "GetMovingAvg after the last poll: "+r, true
+				break
+			}
 		}
 		obs.Avgs = append(obs.Avgs, sensorFmtF(a))
 	}
